@@ -90,6 +90,9 @@ peg::parser! {
             "(" _ expr:expression() _ ")" { expr }
         }
 
+        // N.B. Cached: several alternatives of `expression()` start with an lvalue, and each
+        // would otherwise re-parse a (possibly deeply nested) array index from scratch.
+        #[cache]
         rule lvalue() -> ast::ArithmeticTarget =
             name:variable_name() "[" index:expression() "]" {
                 ast::ArithmeticTarget::ArrayElement(name.to_owned(), Box::new(index))
